@@ -289,7 +289,26 @@ def run(ctx):
         randomize(model, rs)
         try:
             if numeric_bijection(ctx, cfg['model'], model, shape, rs, rep):
-                model_logprob(ctx, cfg['model'], model, shape, rs, rep, unit_interval=(logit is not None))
+                ok = model_logprob(ctx, cfg['model'], model, shape, rs, rep, unit_interval=(logit is not None))
+                if ok and k % 2 == 0:
+                    # history on the same object: it has been queried in evaluation mode (with and without autograd); now other
+                    # parameters and running statistics are loaded into it (checkpoint restore), then it is queried again
+                    g = torch.Generator().manual_seed(int(rs.randint(2 ** 31 - 1)))
+                    sd = {}
+                    pnames = {n_ for n_, p_ in model.named_parameters() if p_.requires_grad}
+                    for key, v in model.state_dict().items():
+                        if not torch.is_floating_point(v) or not (key in pnames or 'running_' in key):
+                            sd[key] = v          # masks, permutations, orderings: structure, not trained state
+                        elif 'running_var' in key:
+                            sd[key] = v * (0.5 + torch.rand(v.shape, generator=g, dtype=v.dtype))
+                        else:
+                            sd[key] = v + 0.3 * torch.randn(v.shape, generator=g, dtype=v.dtype)
+                    model.load_state_dict(sd)
+                    model.eval()
+                    ctx.count('models-queried-again-after-load_state_dict')
+                    rep2 = dict(rep, history=['eval-mode queries (no_grad and autograd)', 'load_state_dict(perturbed parameters and running statistics)'])
+                    if numeric_bijection(ctx, cfg['model'] + ' (after load_state_dict)', model, shape, rs, rep2):
+                        model_logprob(ctx, cfg['model'] + ' (after load_state_dict)', model, shape, rs, rep2, unit_interval=(logit is not None))
         except RuntimeError as ex:
             if 'shape' in str(ex) or 'size' in str(ex):
                 ctx.count('configuration-not-runnable')      # image side not divisible by the model's scales: not an accepted configuration
